@@ -96,10 +96,11 @@ public:
 	m_value = v.index();
       } else if (m_kind == ExactlyOne || m_kind == ZeroOrMore ||
 		 m_kind == ZeroOrOne || m_kind == OneOrMore) {
-	if (!(m_kind == ExactlyOne && m_value.value() == v.index())) {
-	  m_kind = OneOrMore;
-	  m_value = boost::none;
-	}
+	// Even if v is the variable already counted, its old value is
+	// still a distinct counted object (e.g., a reference that was
+	// copied or stored before v was overwritten).
+	m_kind = OneOrMore;
+	m_value = boost::none;
       } else {
 	CRAB_ERROR("small_range::increment unreachable");
       }
